@@ -14,7 +14,8 @@ const LIVE_MAGIC: u64 = 0x4c49_5645_424c_4b21; // "LIVEBLK!"
 const FREED_MAGIC: u64 = 0x4652_4545_4442_4c4b; // "FREEDBLK"
 pub const POISON: u8 = 0xDE;
 
-/// 0 = pass through, 1 = quarantine + poison, 2 = quarantine without poison
+/// 0 = pass through, 1 = quarantine + poison, 2 = quarantine without poison,
+/// 3 = eager reuse LIFO, 4 = eager reuse FIFO (exact size/align classes owned by the harness)
 static MODE: AtomicU8 = AtomicU8::new(0);
 static MISMATCH: AtomicU64 = AtomicU64::new(0);
 static BAD_FREE: AtomicU64 = AtomicU64::new(0);
@@ -32,6 +33,14 @@ static OVERFLOW: AtomicBool = AtomicBool::new(false);
 
 static LOCK: AtomicBool = AtomicBool::new(false);
 static mut QHEAD: *mut u8 = std::ptr::null_mut();
+
+// eager reuse free lists: one per (size/8) for sizes <= REUSE_MAX and align <= 16
+const REUSE_MAX: usize = 4096;
+const REUSE_CLASSES: usize = REUSE_MAX / 8 + 1;
+static mut RHEAD: [*mut u8; REUSE_CLASSES] = [std::ptr::null_mut(); REUSE_CLASSES];
+static mut RTAIL: [*mut u8; REUSE_CLASSES] = [std::ptr::null_mut(); REUSE_CLASSES];
+static REUSED: AtomicU64 = AtomicU64::new(0);
+static REUSE_HELD: AtomicU64 = AtomicU64::new(0);
 
 const TABLE_BITS: usize = 18;
 const TABLE_SIZE: usize = 1 << TABLE_BITS;
@@ -112,6 +121,39 @@ fn table_contains(addr: usize) -> bool {
 
 unsafe impl GlobalAlloc for VAlloc {
   unsafe fn alloc(&self, layout: Layout) -> *mut u8 {
+    let mode = MODE.load(Ordering::Relaxed);
+    if mode >= 3 && layout.size() <= REUSE_MAX && layout.align() <= 16 && REUSE_HELD.load(Ordering::Relaxed) > 0 {
+      let class = (layout.size() + 7) / 8;
+      lock();
+      let mut prev: *mut u8 = std::ptr::null_mut();
+      let mut cur = RHEAD[class];
+      // exact size and alignment match only
+      while !cur.is_null() {
+        let hdr = cur.sub(HDR) as *mut Header;
+        if (*hdr).size == layout.size() && (*hdr).align == layout.align() {
+          let next = (*hdr).next;
+          if prev.is_null() {
+            RHEAD[class] = next;
+          } else {
+            (*(prev.sub(HDR) as *mut Header)).next = next;
+          }
+          if RTAIL[class] == cur {
+            RTAIL[class] = prev;
+          }
+          (*hdr).magic = LIVE_MAGIC;
+          (*hdr).next = std::ptr::null_mut();
+          REUSE_HELD.fetch_sub(1, Ordering::Relaxed);
+          REUSED.fetch_add(1, Ordering::Relaxed);
+          unlock();
+          LIVE_BYTES.fetch_add(layout.size() as i64, Ordering::Relaxed);
+          LIVE_BLOCKS.fetch_add(1, Ordering::Relaxed);
+          return cur;
+        }
+        prev = cur;
+        cur = (*hdr).next;
+      }
+      unlock();
+    }
     let pad = pad_for(layout.align());
     let base = System.alloc(outer_layout(layout.size(), layout.align()));
     if base.is_null() {
@@ -150,7 +192,29 @@ unsafe impl GlobalAlloc for VAlloc {
     LIVE_BLOCKS.fetch_sub(1, Ordering::Relaxed);
 
     let mode = MODE.load(Ordering::Relaxed);
-    if mode != 0 {
+    if mode >= 3 {
+      if size <= REUSE_MAX && align <= 16 {
+        let class = (size + 7) / 8;
+        lock();
+        (*hdr).magic = FREED_MAGIC;
+        if mode == 3 || RHEAD[class].is_null() {
+          // LIFO: push at the head (FIFO with an empty list is the same)
+          (*hdr).next = RHEAD[class];
+          if RHEAD[class].is_null() {
+            RTAIL[class] = ptr;
+          }
+          RHEAD[class] = ptr;
+        } else {
+          // FIFO: append at the tail, allocation pops the head
+          (*hdr).next = std::ptr::null_mut();
+          (*(RTAIL[class].sub(HDR) as *mut Header)).next = ptr;
+          RTAIL[class] = ptr;
+        }
+        REUSE_HELD.fetch_add(1, Ordering::Relaxed);
+        unlock();
+        return;
+      }
+    } else if mode != 0 {
       lock();
       if TABLE_FILL.load(Ordering::Relaxed) < TABLE_MAX_FILL {
         (*hdr).magic = FREED_MAGIC;
@@ -195,6 +259,23 @@ pub fn release_quarantine() {
       cur = next;
     }
   }
+  unsafe {
+    for class in 0..REUSE_CLASSES {
+      let mut cur = RHEAD[class];
+      RHEAD[class] = std::ptr::null_mut();
+      RTAIL[class] = std::ptr::null_mut();
+      while !cur.is_null() {
+        let hdr = cur.sub(HDR) as *mut Header;
+        let next = (*hdr).next;
+        let size = (*hdr).size;
+        let align = (*hdr).align;
+        (*hdr).magic = 0;
+        System.dealloc(cur.sub(pad_for(align)), outer_layout(size, align));
+        cur = next;
+      }
+    }
+    REUSE_HELD.store(0, Ordering::Relaxed);
+  }
   if TABLE_FILL.load(Ordering::Relaxed) > 0 {
     for slot in TABLE.iter() {
       slot.store(0, Ordering::Relaxed);
@@ -237,6 +318,7 @@ pub struct Counters {
   pub live_bytes: i64,
   pub live_blocks: i64,
   pub overflow: bool,
+  pub reused: u64,
   pub first_mismatch: [usize; 4],
 }
 
@@ -249,6 +331,7 @@ pub fn counters() -> Counters {
     live_bytes: LIVE_BYTES.load(Ordering::Relaxed),
     live_blocks: LIVE_BLOCKS.load(Ordering::Relaxed),
     overflow: OVERFLOW.load(Ordering::Relaxed),
+    reused: REUSED.load(Ordering::Relaxed),
     first_mismatch: [
       FIRST_MISMATCH[0].load(Ordering::Relaxed),
       FIRST_MISMATCH[1].load(Ordering::Relaxed),
@@ -264,5 +347,6 @@ pub fn reset_case_counters() {
   BAD_FREE.store(0, Ordering::Relaxed);
   RELEASES.store(0, Ordering::Relaxed);
   QUARANTINED.store(0, Ordering::Relaxed);
+  REUSED.store(0, Ordering::Relaxed);
   OVERFLOW.store(false, Ordering::Relaxed);
 }
